@@ -20,15 +20,16 @@ Definition bits_to_bytes (bs : list bool) : bytes := bits_to_bytes_fuel (length 
 
 (* ---- serialisation ---- *)
 (* fixed parts with 4-byte offsets, then the variable parts in order *)
+Fixpoint ser_go (ps : list (bool * bytes)) (off : N) : bytes * bytes :=
+  match ps with
+  | [] => ([], [])
+  | (true, b) :: ps' => let '(f, v) := ser_go ps' off in (b ++ f, v)
+  | (false, b) :: ps' => let '(f, v) := ser_go ps' (off + lenN b) in (le_bytes 4 off ++ f, b ++ v)
+  end.
+Definition fixed_part_len (p : bool * bytes) : N := if fst p then lenN (snd p) else OFFSET.
 Definition ser_parts (parts : list (bool * bytes)) : bytes :=
-  let flen := sumN (map (fun p : bool * bytes => if fst p then lenN (snd p) else OFFSET) parts) in
-  let fix go (ps : list (bool * bytes)) (off : N) : bytes * bytes :=
-    match ps with
-    | [] => ([], [])
-    | (true, b) :: ps' => let '(f, v) := go ps' off in (b ++ f, v)
-    | (false, b) :: ps' => let '(f, v) := go ps' (off + lenN b) in (le_bytes 4 off ++ f, b ++ v)
-    end in
-  let '(f, v) := go parts flen in f ++ v.
+  let flen := sumN (map fixed_part_len parts) in
+  let '(f, v) := ser_go parts flen in f ++ v.
 
 (* the type of option index i of a union (None for the None option / out of range) *)
 Definition union_opt (none0 : bool) (opts : list ty) (sel : nat) : option ty :=
